@@ -324,6 +324,30 @@ func flipSignatureBit(v string) string {
 	return strings.Join(parts, ".")
 }
 
+// partialFielder signs like the step it wraps, minus one field.
+type partialFielder struct {
+	inner *signature.CommandStepWithInvariants
+	drop  string
+}
+
+func (p *partialFielder) SignedFields() (map[string]any, error) {
+	m, err := p.inner.SignedFields()
+	if err != nil {
+		return nil, err
+	}
+	out := map[string]any{}
+	for k, v := range m {
+		if k != p.drop {
+			out[k] = v
+		}
+	}
+	return out, nil
+}
+
+func (p *partialFielder) ValuesForFields(fields []string) (map[string]any, error) {
+	return p.inner.ValuesForFields(fields)
+}
+
 func c01Event(c obj, seed int64) obj {
 	rng := newRand(seed, "c01")
 	ctx := context.Background()
@@ -373,6 +397,26 @@ func c01Event(c obj, seed int64) obj {
 			rec.Value = s2.Value
 		case "bitflip":
 			rec.Value = flipSignatureBit(sig.Value)
+		case "partial":
+			// a GENUINE signature by the signer's key over everything but one mandatory field (made through a fielder that
+			// leaves the field out). Verification refuses it for the missing field - also right after having refused
+			// signatures that lacked OTHER mandatory fields (history is part of the case)
+			dropped := strings.TrimPrefix(c["fieldop"].(string), "drop:")
+			for _, other := range []string{"repository_url", "plugins", "env", "matrix", "command"} {
+				if other == dropped {
+					continue
+				}
+				ps, err := signature.Sign(ctx, signer.sign, &partialFielder{inner: buildStep(c["orig"].(map[string]any), rng), drop: other}, signature.WithEnv(penv))
+				if err != nil {
+					panic("driver: partial signature: " + err.Error())
+				}
+				signature.Verify(ctx, ps, keySetFor(alg, "signer"), buildStep(c["orig"].(map[string]any), rng), signature.WithEnv(envOf(c["penv"], rng)))
+			}
+			ps, err := signature.Sign(ctx, signer.sign, &partialFielder{inner: buildStep(c["orig"].(map[string]any), rng), drop: dropped}, signature.WithEnv(penv))
+			if err != nil {
+				panic("driver: partial signature: " + err.Error())
+			}
+			rec = ps
 		case "attach":
 			// header..signature -> header.<original payload>.signature : a valid ATTACHED JWS of the original step
 			if len(plog.payloads) != 1 {
@@ -780,6 +824,21 @@ func c06Build(nodes []any, path string, rng *mrand.Rand) pipeline.Steps {
 			}
 			if rng.Intn(5) == 0 {
 				cs.Matrix = &pipeline.Matrix{}
+			}
+			if rng.Intn(4) == 0 {
+				// twins: every such step of a tree has the SAME command, and step envs that differ in content but not in how a
+				// careless formatter prints them ({FLAGS: "-O2 TARGET:all"} vs {FLAGS: "-O2", TARGET: "all"}); A / B stay as set
+				cs.Command, cs.Label = "echo twin", "l"+p
+				cs.Plugins, cs.Matrix = nil, nil
+				cs.Env = map[string]string{}
+				for _, k := range names {
+					cs.Env[k] = "step-" + k
+				}
+				if rng.Intn(2) == 0 {
+					cs.Env["FLAGS"] = "-O2 TARGET:all"
+				} else {
+					cs.Env["FLAGS"], cs.Env["TARGET"] = "-O2", "all"
+				}
 			}
 			if rng.Intn(4) == 0 {
 				cs.RemainingFields = map[string]any{"agents": map[string]any{"queue": "q"}}
